@@ -1,6 +1,7 @@
 """C09 — ENABLE_PEDANTIC switch: op sequences (setenv / unsetenv / enable_pedantic / disable_pedantic / obtain a decorator /
-decorate / apply / decorate the same function object again / call) run against the real library and against the Lean state
-machine + specification."""
+decorate / apply / decorate the same function object again / call / derive a sub class of a decorated class / reach an
+(inherited) member through a class object or an instance) run against the real library and against the Lean state machine +
+specification."""
 import os, sys, io, itertools, json, contextlib, tempfile, shutil, types, asyncio, inspect
 
 RULE = ('exhaustive: every op sequence of length <= 4 over the reduced alphabet {unsetenv, enable_pedantic, disable_pedantic, the seven '
@@ -13,8 +14,15 @@ RULE = ('exhaustive: every op sequence of length <= 4 over the reduced alphabet 
         'over {enable, disable, unsetenv, pedantic / pedantic_require_docstring on a fresh function, the same two on the first / latest function '
         'object again (spellings rotating), obtain pedantic(), apply it to the first function object again, call first / latest result} from an unset variable (length <= 3: '
         'also from "0" and "1"), and the grid initial value x first decorator x spelling x 4 function shapes x {no toggle, opposite toggle} x second decorator x '
-        'spelling, with all call kinds on both results, a second toggle and a third decoration; thorough: also every sequence of length 5 over {enable, disable, the seven decorators, call latest positionally}; plus seeded random sequences of 3..30 ops (600 / 100000) over all of the above, other strings and near-miss handle indices (and re-decoration of class objects, which the model does not describe: `bad` on both sides).  Every target is a fresh object from a real .py file unless the op says "the same object again"; the variable is set '
-        'per sequence and restored afterwards.  non-trivial = the sequence calls a live decoration result')
+        'spelling, with all call kinds on both results, a second toggle and a third decoration; SUB CLASSES of decorated classes and inherited members '
+        '(subclass / callm: instance method, class method, static method, property getter and setter, reached through the class object and through a new '
+        'instance, of the decorated class and of classes derived from it at any depth): every sequence of length <= 4 over {enable, disable, three class '
+        'decorators on a class with all member kinds, derive from the first / the latest class, reach cm / sm / m / property of the latest class, cm of the '
+        'first derived class (via and call kind rotating)} from an unset variable (length <= 3: also from "0" and "1"), and the grid initial value x 9 class '
+        'decorators x every spelling x {documented, undocumented} x {sub class created and used before the toggle, created before and first used after it, '
+        'created after it, derived from a derived class, created after toggling back} x 5 members x 2 routes x 3 call kinds, all owners revisited after '
+        'toggling back; thorough: also length 5 of the sub class alphabet;  thorough: also every sequence of length 5 over {enable, disable, the seven decorators, call latest positionally}; plus seeded random sequences of 3..30 ops (600 / 100000) over all of the above, other strings and near-miss handle indices (and re-decoration of class objects, which the model does not describe: `bad` on both sides).  Every target is a fresh object from a real .py file unless the op says "the same object again"; the variable is set '
+        'per sequence and restored afterwards.  non-trivial = the sequence calls a live decoration result or a member of a live class')
 EXHAUSTIVE = {'quick': True, 'thorough': True}
 ASSUMPTIONS = ['single-threaded: nothing else writes os.environ["ENABLE_PEDANTIC"] between the read in a decorator and its return',
                'targets are plain (async) functions and classes whose members are methods / properties; "checked" is observed as: a '
@@ -22,6 +30,9 @@ ASSUMPTIONS = ['single-threaded: nothing else writes os.environ["ENABLE_PEDANTIC
                'the harness decorator recorded the call (for_all_methods with a foreign decorator)',
                'decorating the same object again is modelled (and claimed) for function objects: the function object is left as it is by its decorators; '
                'for_all_methods changes a class in place, so handing the same class object in again is answered `bad` by model and runner alike',
+               'sub classes are plain `class S(Base): pass` (no member of their own, not decorated themselves); a class method / static method of a class '
+               'wrapped by trace / timer / a foreign decorator raises TypeError when reached through an instance (for_all_methods re-binds it as a plain '
+               'function: recorded finding of C18) — modelled as such, not claimed by the C09 specification',
                'values of the variable other than unset/"0"/"1" are run and compared with the model (the code treats them as "0") but are '
                'not claimed by the property']
 TRUSTED = ['that pedantic wrappers reject positional / wrongly typed calls, that trace/timer wrappers print and that for_all_methods returns '
@@ -36,7 +47,10 @@ CLS_DECOS = ['pedantic_class', 'pedantic_class_require_docstring', 'trace_class'
 SEVEN = FN_DECOS + CLS_DECOS[:4] + ['for_all_methods:pedantic']
 ALL_DECOS = FN_DECOS + CLS_DECOS
 FN_SHAPES = ['fn', 'fn_nodoc', 'afn', 'afn_nodoc']
-CLS_SHAPES = ['K', 'K_nodoc', 'K2', 'K2_nodoc']
+CLS_SHAPES = ['K', 'K_nodoc', 'K2', 'K2_nodoc', 'K3', 'K3_nodoc']
+FULL_SHAPES = ['K3', 'K3_nodoc']          # classes with an instance method, a class method, a static method and a property (getter + setter)
+MEMBERS = ['m', 'cm', 'sm', 'pget', 'pset']
+VIAS = ['cls', 'inst']
 KINDS = ['good', 'positional', 'wrongType']
 OTHER_VALUES = ['', 'true', 'True', '2', '01', ' 1', '1 ', 'on', '00']
 CLAIMED = [None, '0', '1']
@@ -54,17 +68,34 @@ def _cls(name, doc):
     return f'class {name}:\n    {init}def m(self, a: int) -> int:\n' + (_doc('        ') if doc else '') + '        return a\n' + prop
 
 
+def _cls3(name, doc):
+    d8 = _doc('        ') if doc else ''
+    pget = '        """ P.\n\n        Returns:\n            int: v\n        """\n' if doc else ''
+    pset = '        """ P.\n\n        Args:\n            a (int): x\n        """\n' if doc else ''
+    init = '        """ Init. """\n' if doc else ''
+    return (f'class {name}:\n    def __init__(self) -> None:\n{init}        self.v = 1\n\n'
+            f'    def m(self, a: int) -> int:\n{d8}        return a\n\n'
+            f'    @classmethod\n    def cm(cls, a: int) -> int:\n{d8}        return a\n\n'
+            f'    @staticmethod\n    def sm(a: int) -> int:\n{d8}        return a\n\n'
+            f'    @property\n    def p(self) -> int:\n{pget}        return self.v\n\n'
+            f'    @p.setter\n    def p(self, a: int) -> None:\n{pset}        self.v = a\n')
+
+
 SOURCES = {
     'fn': 'def fn(a: int) -> int:\n' + _doc('    ') + '    return a\n',
     'fn_nodoc': 'def fn_nodoc(a: int) -> int:\n    return a\n',
     'afn': 'async def afn(a: int) -> int:\n' + _doc('    ') + '    return a\n',
     'afn_nodoc': 'async def afn_nodoc(a: int) -> int:\n    return a\n',
     'K': _cls('K', True), 'K_nodoc': _cls('K_nodoc', False), 'K2': _cls('K2', True), 'K2_nodoc': _cls('K2_nodoc', False),
+    'K3': _cls3('K3', True), 'K3_nodoc': _cls3('K3_nodoc', False),
 }
 
 
 def tgt(shape):
-    return {'cls': shape in CLS_SHAPES, 'doc': not shape.endswith('_nodoc')}
+    t = {'cls': shape in CLS_SHAPES, 'doc': not shape.endswith('_nodoc')}
+    if shape in FULL_SHAPES:
+        t['full'] = True
+    return t
 
 
 def forms_direct(d):
@@ -86,7 +117,7 @@ def forms_factory(d):
 
 
 def shapes_for(d):
-    return FN_SHAPES if d in FN_DECOS else CLS_SHAPES
+    return FN_SHAPES if d in FN_DECOS else CLS_SHAPES[:4]      # the grids of the first generation; K3 shapes: the sub class families
 
 
 def mk(env, ops, xs, origin):
@@ -117,6 +148,16 @@ def op_redecorate(d, h, form):
 def op_reapply(k, h):
     """apply the k-th decorator obtained earlier to the very object the h-th decoration was applied to"""
     return ['reapply', k, h], None
+
+
+def op_subclass(h):
+    """`class S(<class behind handle h>): pass` — S becomes the next handle"""
+    return ['subclass', h], None
+
+
+def op_callm(h, member, via, kind):
+    """reach `member` of the class behind handle h through the class object / a new instance and call it"""
+    return ['callm', h, member, via, kind], None
 
 
 def build(env, pairs, origin):
@@ -272,13 +313,92 @@ def factory_grid_cases():
     return out
 
 
-def random_case(rng, maxlen=30, origin='random', again=0.12):
+INH_SYMS = [('env', 'enable'), ('env', 'disable'), ('deco', 'pedantic_class'), ('deco', 'trace_class'),
+            ('deco', 'for_all_methods:pedantic_require_docstring'), ('sub', 'first'), ('sub', 'last'),
+            ('callm', 'last', 'cm'), ('callm', 'last', 'sm'), ('callm', 'last', 'm'), ('callm', 'last', 'pget'), ('callm', 'firstsub', 'cm')]
+
+
+def resolve_inherit(seq, rot=0):
+    """'first' = the first class decorated, 'last' = the latest handle, 'firstsub' = the first class derived (none yet: index 0 /
+    one past the end, `bad` on both sides); route and call kind rotate so that every member meets every route / kind"""
+    pairs, nh, firstsub = [], 0, None
+    for i, s in enumerate(seq):
+        if s[0] == 'env':
+            pairs.append(([s[1]], None))
+        elif s[0] == 'deco':
+            forms = forms_direct(s[1])
+            pairs.append(op_decorate(s[1], 'K3', forms[(i + rot) % len(forms)]))
+            nh += 1
+        elif s[0] == 'sub':
+            pairs.append(op_subclass(0 if (s[1] == 'first' or nh == 0) else nh - 1))
+            if firstsub is None:
+                firstsub = nh
+            nh += 1
+        else:
+            h = (firstsub if firstsub is not None else nh) if s[1] == 'firstsub' else max(nh - 1, 0)
+            j = i + rot
+            pairs.append(op_callm(h, s[2], VIAS[j % 2], ('wrongType', 'positional', 'wrongType', 'good')[(j // 2) % 4]))
+    return pairs
+
+
+def inherit_grid_cases():
+    """decorate a class; derive Early and Late; use Early; toggle; derive Later (from the base) and Deep (from Late); reach every member of
+    every owner by every route with every call kind — Late and Deep are used for the first time after the toggle; toggle back; derive once
+    more; revisit every owner"""
+    out = []
+    for env in CLAIMED + ['true']:
+        for d in CLS_DECOS:
+            for shape in FULL_SHAPES + ['K2']:
+                for form in forms_direct(d):
+                    pairs = [op_decorate(d, shape, form), op_subclass(0), op_subclass(0)]          # 1 = Early, 2 = Late
+                    pairs += [op_callm(1, m, v, 'wrongType') for m in MEMBERS for v in VIAS] + [(['call', 1, 'positional'], None)]
+                    pairs.append((opposite(env), None))
+                    pairs += [op_subclass(0), op_subclass(2)]                                      # 3 = Later, 4 = Deep
+                    for h in (2, 4, 3, 1, 0):
+                        pairs += [op_callm(h, m, v, k) for m in MEMBERS for v in VIAS for k in KINDS]
+                        pairs.append((['call', h, 'wrongType'], None))
+                    now = '1' if opposite(env) == ['enable'] else '0'
+                    pairs.append((opposite(now), None))
+                    pairs.append(op_subclass(4))                                                   # 5
+                    for h in (5, 4, 3, 2, 1, 0):
+                        pairs += [op_callm(h, m, v, k) for m in ('cm', 'sm', 'm', 'pset') for v in VIAS for k in ('positional', 'wrongType')]
+                    out.append(build(env, pairs, 'inherit-grid'))
+    # the decorator obtained earlier (factory), applied to the class later
+    for env in CLAIMED:
+        for d in ('for_all_methods:pedantic', 'for_all_methods:mark', 'pedantic_class_require_docstring', 'timer_class'):
+            for t1 in (None, opposite(env)):
+                pairs = [op_factory(d, forms_factory(d)[0])]
+                if t1:
+                    pairs.append((t1, None))
+                pairs += [op_apply(0, 'K3'), op_subclass(0)]
+                now = env if not t1 else ('1' if t1 == ['enable'] else '0')
+                pairs.append((opposite(now), None))
+                pairs.append(op_subclass(0))
+                for h in (2, 1, 0):
+                    pairs += [op_callm(h, m, v, k) for m in MEMBERS for v in VIAS for k in KINDS]
+                out.append(build(env, pairs, 'inherit-grid'))
+    return out
+
+
+def random_case(rng, maxlen=30, origin='random', again=0.12, inherit=0.16):
     vals = [None, '0', '1'] * 4 + OTHER_VALUES + ['0 ', 'false', '١', '1\t', 'enable']
     env = rng.choice(vals)
     pairs, nh, nf, fdecos = [], 0, 0, []
     fn_handles, cls_handles = [], []          # handles whose target is a function / a class
     n = rng.randint(3, maxlen)
     for _ in range(n):
+        if rng.random() < inherit and nh:
+            # a sub class of some class handle (now and then of a function / a handle that does not exist), or a member reached through one
+            q = rng.random()
+            h = nh if q < 0.03 else (rng.choice(cls_handles) if cls_handles and q < 0.92 else rng.randrange(nh))
+            if rng.random() < 0.4:
+                pairs.append(op_subclass(h))
+                if h in cls_handles:
+                    cls_handles.append(nh)
+                nh += 1
+            else:
+                pairs.append(op_callm(h, rng.choice(MEMBERS), rng.choice(VIAS), rng.choice(KINDS)))
+            continue
         r = rng.random()
         if r < again and (fn_handles or cls_handles):
             # the same object again; mostly a function (classes / handles that do not exist: `bad` on both sides)
@@ -299,7 +419,7 @@ def random_case(rng, maxlen=30, origin='random', again=0.12):
             pairs.append((['setenv', rng.choice([v for v in vals if v is not None])], None) if k == 'setenv' else ([k], None))
         elif r < 0.52:
             d = rng.choice(ALL_DECOS)
-            pairs.append(op_decorate(d, rng.choice(shapes_for(d)), rng.choice(forms_direct(d))))
+            pairs.append(op_decorate(d, rng.choice(FN_SHAPES if d in FN_DECOS else CLS_SHAPES), rng.choice(forms_direct(d))))
             (fn_handles if d in FN_DECOS else cls_handles).append(nh)
             nh += 1
         elif r < 0.60:
@@ -309,7 +429,7 @@ def random_case(rng, maxlen=30, origin='random', again=0.12):
             nf += 1
         elif r < 0.70 and nf:
             k = rng.randrange(nf)
-            pairs.append(op_apply(k, rng.choice(shapes_for(fdecos[k]))))
+            pairs.append(op_apply(k, rng.choice(FN_SHAPES if fdecos[k] in FN_DECOS else CLS_SHAPES)))
             (fn_handles if fdecos[k] in FN_DECOS else cls_handles).append(nh)
             nh += 1
         elif nh:
@@ -344,7 +464,18 @@ def cases(rng, tier):
                 for env in ([None] if n == 4 else CLAIMED):
                     out.append(build(env, resolve_again(seq, k), f'exhaustive-again-{n}'))
     out += again_grid_cases()
+    # sub classes of decorated classes, inherited members
+    for n in range(2, 5):
+        for k, seq in enumerate(itertools.product(INH_SYMS, repeat=n)):
+            if any(s[0] == 'deco' for s in seq) and any(s[0] in ('sub', 'callm') for s in seq):
+                for env in ([None] if n == 4 else CLAIMED):
+                    out.append(build(env, resolve_inherit(seq, k), f'exhaustive-inherit-{n}'))
+    out += inherit_grid_cases()
     if tier == 'thorough':
+        syms5 = [s for s in INH_SYMS if s not in (('deco', 'trace_class'), ('callm', 'last', 'pget'), ('callm', 'last', 'm'), ('sub', 'first'))]
+        for k, seq in enumerate(itertools.product(syms5, repeat=5)):
+            if any(s[0] == 'deco' for s in seq) and any(s[0] == 'sub' for s in seq) and any(s[0] == 'callm' for s in seq):
+                out.append(build(None, resolve_inherit(seq, k), 'exhaustive-inherit-5'))
         syms5 = [s for s in AGAIN_SYMS if s not in (('env', 'unsetenv'), ('re', 'pedantic', 'last'), ('call', 'first'))]
         for k, seq in enumerate(itertools.product(syms5, repeat=5)):
             if any(s[0] == 'deco' for s in seq) and any(s[0] in ('re', 'reapply') for s in seq) and any(s[0] == 'call' for s in seq):
@@ -361,7 +492,8 @@ def cases(rng, tier):
 
 def search(rng, tier, near):
     return ([random_case(rng, maxlen=8, origin='search') for _ in range(3000)] + [random_case(rng, origin='search') for _ in range(1500)]
-            + [random_case(rng, maxlen=10, origin='search-again', again=0.4) for _ in range(3000)])
+            + [random_case(rng, maxlen=10, origin='search-again', again=0.4) for _ in range(3000)]
+            + [random_case(rng, maxlen=12, origin='search-inherit', again=0.05, inherit=0.45) for _ in range(3000)])
 
 
 # ------------------------------------------------------------------ the implementation side
@@ -468,6 +600,45 @@ class Impl:
                 return ['error', type(e).__name__]
         return ['called', rejected, bool(buf.getvalue()), len(self.marks) > n0]
 
+    def callm(self, handle, member, via, kind):
+        """reach `member` of the class behind the handle through the class object (`via == 'cls'`) or a new instance and call it;
+        the attribute lookup is part of the observed call (a descriptor may do work on first access)"""
+        owner, shape = handle
+        if shape not in CLS_SHAPES or (member != 'm' and shape not in FULL_SHAPES):
+            return ['bad']
+        try:
+            with contextlib.redirect_stdout(io.StringIO()):      # a traced/timed __init__ prints: not the call under observation
+                inst = owner()
+        except Exception as e:
+            return ['error', 'construct:' + type(e).__name__]
+        val = 'x' if kind == 'wrongType' else 1
+        o = owner if via == 'cls' else inst
+
+        def go():
+            if member == 'pget':
+                inst.__dict__['v'] = val
+                return o.p.fget(inst) if via == 'cls' else inst.p
+            if member == 'pset':
+                if via == 'cls':
+                    return o.p.fset(inst, val)
+                inst.p = val
+                return None
+            if member == 'm' and via == 'cls':
+                return o.m(inst, a=val) if kind != 'positional' else o.m(inst, val)
+            f = getattr(o, member)
+            return f(a=val) if kind != 'positional' else f(val)
+        n0 = len(self.marks)
+        rejected = False
+        buf = io.StringIO()
+        with contextlib.redirect_stdout(buf):
+            try:
+                go()
+            except self.PedanticException:
+                rejected = True
+            except Exception as e:
+                return ['error', type(e).__name__]
+        return ['called', rejected, bool(buf.getvalue()), len(self.marks) > n0]
+
     def run(self, case):
         c, xs = case['c'], case['x']['ops']
         saved = os.environ.get(NAME)
@@ -521,6 +692,23 @@ class Impl:
                         obs.append(['bad'])
                     else:
                         obs.append(self.call(handles[op[1]], op[2]))
+                elif tag == 'subclass':
+                    base = handles[op[1]] if op[1] < len(handles) else None
+                    if base is None or base[1] not in CLS_SHAPES:
+                        # no class behind the handle (a function, a decoration that raised, no such handle)
+                        keep = op[1] < len(targets) and targets[op[1]] is not None and targets[op[1]][1] in CLS_SHAPES
+                        handles.append(None); targets.append(targets[op[1]] if keep else None); obs.append(['bad'])
+                    else:
+                        try:
+                            sub = type(base[0])('S' + str(len(handles)), (base[0],), {})
+                        except Exception as e:
+                            handles.append(None); targets.append(None); obs.append(['error', type(e).__name__]); continue
+                        handles.append((sub, base[1])); targets.append((sub, base[1])); obs.append(['derived'])
+                elif tag == 'callm':
+                    if op[1] >= len(handles) or handles[op[1]] is None:
+                        obs.append(['bad'])
+                    else:
+                        obs.append(self.callm(handles[op[1]], op[2], op[3], op[4]))
                 else:
                     obs.append(['error', 'unknown-op'])
         finally:
@@ -578,8 +766,21 @@ def judge(case, impl, model):
     tags = set()
     en = model.get('enabledNow', [])
     deco_en = []
+    derived = set()
     for i, (op, o) in enumerate(zip(ops, mo)):
-        if op[0] in ('decorate', 'apply', 'redecorate', 'reapply'):
+        if op[0] == 'subclass':
+            derived.add(len(deco_en))
+            deco_en.append(deco_en[op[1]] if op[1] < len(deco_en) else None)      # what was decided for the base
+            tags.add('D' if o[0] == 'derived' else 'B')
+        elif op[0] == 'callm':
+            tags.add('b' if o[0] == 'bad' else 'e' if o[0] != 'called' else ('r' if o[1] else 'p' if o[2] else 'm' if o[3] else 'n'))
+            if o[0] != 'bad':
+                tags.add({'m': 'M', 'cm': 'C', 'sm': 'S', 'pget': 'G', 'pset': 'P'}[op[2]].lower() + ('k' if op[3] == 'cls' else 'i'))
+            if o[0] == 'called' and op[1] < len(deco_en) and i < len(en) and deco_en[op[1]] != en[i]:
+                tags.add('T')
+                if op[1] in derived:
+                    tags.add('H')      # an inherited member reached through a sub class while the switch differs from the decoration
+        elif op[0] in ('decorate', 'apply', 'redecorate', 'reapply'):
             deco_en.append(en[i] if i < len(en) else None)
             if op[0] in ('redecorate', 'reapply'):
                 tags.add('A')
@@ -593,15 +794,17 @@ def judge(case, impl, model):
                 tags.add('T')
         if sp[i][0] == 'unclaimed':
             tags.add('U')
-    nontrivial = bool(tags & set('rpmn'))
+    nontrivial = bool(tags & set('rpmne'))
     return {'corr': corr, 'pfail': pfail, 'finding': None, 'nontrivial': nontrivial, 'tag': ''.join(sorted(tags)), 'why': why}
 
 
 def extra_coverage(results):
-    origins, toggled = {}, 0
+    origins, toggled, inherited = {}, 0, 0
     for (c, i, m, j) in results:
         o = c.get('x', {}).get('origin', 'corpus')
         origins[o] = origins.get(o, 0) + 1
         toggled += 'T' in j['tag']
+        inherited += 'H' in j['tag']
     return {'cases_by_origin': origins, 'cases_calling_after_a_toggle': toggled,
+            'cases_reaching_an_inherited_member_through_a_sub_class_after_a_toggle': inherited,
             'ops_run': sum(len(c['c']['ops']) for (c, _, _, _) in results)}
